@@ -10,6 +10,42 @@ NOTE_COMMON = ('Trusted: TLC 1.8.0 and the CommunityModules Json reader; the con
                'the stated bounds; beyond them the evidence is recorded traces judged by the specification.')
 
 
+# what was added to a check after its first version (seed rounds 2 and 3, DESIGN 14.5 / 14.6); appended to the claim text
+ADDENDA = {
+    'C01': '  Datetime kinds carry sub-second values (awkward binary fractions, random microseconds).',
+    'C03': '  Fragments with more distinct values than Size.max_strings_in_group whose class is widened only by late values.',
+    'C04': '  Identical content (same bytes on both sides) must pass at all three entry points under LF / CR LF / no final newline / '
+           'blank or whitespace-only last line / other characters str.splitlines treats as line ends.',
+    'C05': '  Non-default option sets of the model rows are also run through assertDataFramesEqual, parquet-reference and on-disk entry '
+           'points; rich pairs are compared against CSV and parquet reference files (never an internal error; a changed value, row or '
+           'column still fails).',
+    'C06': '  Quick tier adds boolean columns of 5 cells (duplicates next to several nulls); 40 % of sessions use a frame whose index is a '
+           'permutation of 0..n-1, records being identified by label.',
+    'C08': '  Rich sessions add "a string no discovered expression matches", chosen after discovery against the discovered list '
+           '(also for all-null columns and empty tables, whose list is empty).',
+    'C09': '  An unparsable to_json of a discovered set is a ValidJson violation (never a machinery failure).',
+    'C10': '  RefLoc.tla models class-level and per-instance reference locations with relative reference names; 120/600 sessions with up to '
+           'three ReferenceTest instances are judged by Trace_RefLoc, which reconstructs the location tables itself (an assertion writes only '
+           'the file its own instance and kind resolve to).',
+    'C11': '  Outputs may mention $TMPDIR (expanded by the command at run time), stderr carries machine tokens, and two outputs may have names '
+           'that collide as identifiers; generated tests are located by parsing the script.  Known finding D35 (-n 1 with $TMPDIR mentioned).',
+    'C12': '  Once per session a whole line mentioning the machine is removed from / added to a stream or text file; every third session has a '
+           'first stdout line with a date decades away and a forced character edit outside the date.',
+    'C13': '  Equally frequent shapes with fewer patterns allowed than shapes (ties at the pruning cut, tag-neutral); dictionary keys with '
+           'multiplicity 0.',
+    'C14': '  pandas forms: Series, categorical Series (with unused categories), list of two Series through pdextract.',
+    'C15': '  A second object is made before its temporary directory exists; the system temporary directory is watched.  The post-processed '
+           'pair is demanded when an exclusion had an effect (TextCompare.ExclusionsHadEffect).',
+    'C16': '  LoadDf.tla: where load_df takes the description of a CSV file from (explicit, the CSVW description itself, the associated file '
+           'among 11 candidate names, none; ignore_apparent_metadata); all 2048 candidate subsets and 64 cases x 4 file names on real files '
+           '(found and repaired D33, D34).  A second boolean column with its own spelling.',
+    'C17': '  The perturbed data holds a value beyond the discovered maximum but inside the tolerance of --epsilon; detect to standard output '
+           'must equal, line for line, what the same command writes to a named file.',
+    'C18': '  incremental_coverage() must be the full listing reduced to the newly explained counts; the module-level functions are also '
+           'called on hand-made overlapping expressions (300/1500 cases).',
+}
+
+
 def register(claim):
     claim('C10',
           technique='TLA+ session model (RefTest.tla) + argv case analysis (Argv.tla), TLC exhaustive; '
